@@ -1012,6 +1012,43 @@ func (b *bgen) injectScenario(name string, rootDefs, paths M, aux map[string]M, 
 		rootDefs["withSiblings"] = M{"type": "object", "properties": M{"p": sib}}
 		paths["/scn/siblings"] = M{"get": resp(M{"$ref": "#/definitions/withSiblings"})}
 		g.hit("scenario:ref-siblings")
+	case "remote-ref-siblings":
+		// a cross-file $ref with schema-bearing siblings that hold cross-file $refs themselves (to the same or to
+		// another definition): whichever of the holder and the nested position is rewritten first, the other must
+		// still be there to be rewritten
+		if len(b.auxPaths) == 0 {
+			return
+		}
+		ap := b.auxPaths[0]
+		x, y := g.pick([]string{"sibX", "sib x", "s/x"}), g.pick([]string{"sibY", "sib y", "s~y"})
+		aux[ap]["definitions"].(M)[x] = M{"type": "object", "properties": M{"vx": M{"type": "string"}}}
+		aux[ap]["definitions"].(M)[y] = M{"type": "object", "properties": M{"wy": M{"type": "integer"}}}
+		refTo := func(n string) M {
+			return M{"$ref": relRef("", ap) + "#/definitions/" + urlFragEscape(jsonPtrEscape(n))}
+		}
+		inner := x
+		if g.p(0.5) {
+			inner = y
+		}
+		sib := refTo(x)
+		switch g.n(3) {
+		case 0:
+			sib["properties"] = M{"extra": refTo(inner)}
+		case 1:
+			sib["items"] = refTo(inner)
+		default:
+			sib["allOf"] = []any{refTo(inner)}
+		}
+		switch g.n(3) {
+		case 0:
+			rootDefs["remoteSiblings"] = sib
+		case 1:
+			rootDefs["remoteSiblings"] = M{"type": "object", "properties": M{"p": sib}}
+		default:
+			rootDefs["remoteSiblings"] = M{"allOf": []any{sib, M{"type": "object", "properties": M{"own": M{"type": "string"}}}}}
+		}
+		paths["/scn/remote-siblings"] = M{"get": resp(M{"$ref": "#/definitions/remoteSiblings"})}
+		g.hit("scenario:remote-ref-siblings")
 	case "unused-chain":
 		// definitions that become unused only after another one is removed, through names that need escaping
 		if g.p(0.5) {
